@@ -31,8 +31,42 @@ pub const ACP: u64 = 21; // access control profile c4acp
 pub const OA: u64 = 22; // oauth2 client c4client
 pub const DNAME_NEW: &str = "C4 Domain";
 
+/// Domain level a transaction kind runs at. Since domain level 1.11 the schema is compiled in and
+/// attribute-type entries no longer change it, so the "schema" kind runs on a server kept at the
+/// last level whose schema is entry-driven (as the repository's own test_dynamic_schema_attr does).
+pub fn level_of(kind: &str) -> DomainVersion {
+    if kind == "schema" || kind == "schemaidx" {
+        DOMAIN_LEVEL_14
+    } else {
+        DOMAIN_TGT_LEVEL
+    }
+}
+
+/// kvc::srv::open_qs_file with an explicit domain level.
+pub async fn open_qs_level(path: &Path, pool: u32, at: Duration, init: bool, level: DomainVersion) -> QueryServer {
+    use kanidmd_lib::be::{Backend, BackendConfig};
+    use kanidmd_lib::schema::Schema;
+    sketching::test_init();
+    let schema_outer = Schema::new().expect("schema");
+    let idxmeta = {
+        let schema_txn = schema_outer.write();
+        schema_txn.reload_idxmeta()
+    };
+    let cfg = BackendConfig::new(Some(path), pool, kanidm_proto::internal::FsType::Generic, Some(2048));
+    let be = Backend::new(cfg, idxmeta, false).expect("backend");
+    let qs = QueryServer::new(be, schema_outer, "example.com".to_string(), at).expect("qs");
+    if init {
+        qs.initialise_helper(at, level).await.expect("init");
+    }
+    qs
+}
+
 pub async fn open(path: &Path, pool: u32, at: Duration, init: bool) -> Srv {
-    let qs = open_qs_file(path, pool, at, init).await;
+    open_level(path, pool, at, init, DOMAIN_TGT_LEVEL).await
+}
+
+pub async fn open_level(path: &Path, pool: u32, at: Duration, init: bool, level: DomainVersion) -> Srv {
+    let qs = open_qs_level(path, pool, at, init, level).await;
     let (idms, d, a) = IdmServer::new(
         qs.clone(),
         &Url::from_str("https://idm.example.com").expect("url"),
@@ -61,8 +95,8 @@ pub fn copy_db(from: &Path, to: &Path) {
 }
 
 /// Template database: initialised server + population, closed cleanly.
-pub async fn make_template(path: &Path) {
-    let s = open(path, 4, t(0), true).await;
+pub async fn make_template(path: &Path, level: DomainVersion) {
+    let s = open_level(path, 4, t(0), true, level).await;
     let mut w = s.idms.proxy_write(t(1)).await.expect("write");
     w.qs_write
         .internal_create(vec![
@@ -116,6 +150,7 @@ pub fn ops_of(kind: &str) -> Vec<&'static str> {
         "modify" => vec!["modify"],
         "delete" => vec!["delete"],
         "schema" => vec!["schema"],
+        "schemaidx" => vec!["schemaidx"],
         "acp" => vec!["acp"],
         "oauth2" => vec!["oauth2"],
         "domain" => vec!["domain"],
@@ -151,7 +186,7 @@ pub fn apply_op(w: &mut QueryServerWriteTransaction<'_>, op: &str) -> Result<(),
             ]),
         ),
         "delete" => w.internal_delete_uuid(uuid_e(E2)),
-        "schema" => w.internal_create(vec![kanidmd_lib::entry_init!(
+        "schema" | "schemaidx" => w.internal_create(vec![kanidmd_lib::entry_init!(
             (Attribute::Class, EntryClass::Object.to_value()),
             (Attribute::Class, EntryClass::AttributeType.to_value()),
             (Attribute::Uuid, Value::Uuid(uuid_e(ATTR))),
@@ -159,12 +194,14 @@ pub fn apply_op(w: &mut QueryServerWriteTransaction<'_>, op: &str) -> Result<(),
             (Attribute::Description, Value::new_utf8s("c4 attribute")),
             (Attribute::MultiValue, Value::new_bool(false)),
             (Attribute::Unique, Value::new_bool(false)),
-            (Attribute::Indexed, Value::new_bool(false)),
+            (Attribute::Indexed, Value::new_bool(op == "schemaidx")),
             (Attribute::Syntax, Value::new_syntaxs("UTF8STRING").expect("syntax"))
         )]),
         "acp" => w.internal_create(vec![kanidmd_lib::entry_init!(
             (Attribute::Class, EntryClass::Object.to_value()),
             (Attribute::Class, EntryClass::AccessControlProfile.to_value()),
+            (Attribute::Class, EntryClass::AccessControlTargetScope.to_value()),
+            (Attribute::Class, EntryClass::AccessControlReceiverGroup.to_value()),
             (Attribute::Class, EntryClass::AccessControlSearch.to_value()),
             (Attribute::Name, Value::new_iname("c4acp")),
             (Attribute::Uuid, Value::Uuid(uuid_e(ACP))),
